@@ -1,29 +1,51 @@
 import ESV.Comp.CgIf3
+import ESV.Comp.CgFor
 /-
 `codegen_correct`: the fragment, and the recursion over the statement tree.
 -/
 namespace ESV.Comp
 open ESV ESV.Beh
 
-mutual
-/-- the statements `codegen_correct` covers so far: F0 (plain operations, operations under a context, `return` / `end` /
-`hold`) and if / elseif / else with any headers, `not`, empty blocks -/
-def cgStmt : Stmt → Bool
+/-- the statements of F0: plain operations, operations under a context, `return` / `end` / `hold` -/
+def cgSimple : Stmt → Bool
   | .op n _ => nameOK n
   | .inl c _ n _ => isCtx c && nameOK n && n != Gen.op_return
   | .with_ c _ inner => isCtx c && f0Inner inner
   | .ret => true
   | .end_ => true
   | .hold => true
-  | .ite _ hdrs body elifs _ els => hdrs.all (fun h => isTest h.name) && cgStmts body && cgElifs elifs && cgStmts els
   | _ => false
-def cgStmts : Stmts → Bool
+
+mutual
+/-- the statements `codegen_correct` covers, by level: always F0 (`cgSimple`) and if / elseif / else with any headers, `not`,
+empty blocks (F1); from level 2 on `forever` / `while` / `for` with `continue` and `break_loop` (F2; the init and increment
+statements of `for` are F0 statements) -/
+def cgStmt (lv : Nat) : Stmt → Bool
+  | .op n ps => cgSimple (.op n ps)
+  | .inl c cp n ps => cgSimple (.inl c cp n ps)
+  | .with_ c cp inner => cgSimple (.with_ c cp inner)
+  | .ret => true
+  | .end_ => true
+  | .hold => true
+  | .ite _ hdrs body elifs _ els => hdrs.all (fun h => isTest h.name) && cgStmts lv body && cgElifs lv elifs && cgStmts lv els
+  | .cont => decide (2 ≤ lv)
+  | .brkLoop => decide (2 ≤ lv)
+  | .forever body => decide (2 ≤ lv) && cgStmts lv body
+  | .while_ _ h body => decide (2 ≤ lv) && isTest h.name && cgStmts lv body
+  | .for_ init h inc body => decide (2 ≤ lv) && isTest h.name && cgSimple init && cgSimple inc && cgStmts lv body
+  | _ => false
+def cgStmts (lv : Nat) : Stmts → Bool
   | .nil => true
-  | .cons s r => cgStmt s && cgStmts r
-def cgElifs : Elifs → Bool
+  | .cons s r => cgStmt lv s && cgStmts lv r
+def cgElifs (lv : Nat) : Elifs → Bool
   | .nil => true
-  | .cons _ hdrs body r => hdrs.all (fun h => isTest h.name) && cgStmts body && cgElifs r
+  | .cons _ hdrs body r => hdrs.all (fun h => isTest h.name) && cgStmts lv body && cgElifs lv r
 end
+
+theorem simpleOK_congr {cx : Cx} {items : List LItem} {t1 t2 : Nat → Src.B → Src.B × Nat}
+    (h : SimpleOK cx items t1) (e : ∀ k b, t1 k b = t2 k b) : SimpleOK cx items t2 := by
+  have : t1 = t2 := by funext k b; exact e k b
+  rw [← this]; exact h
 
 theorem pieceOK_congr {cx : Cx} {items : List LItem} {s s' : St} {t1 t2 : Nat → Src.B → Src.B × Nat} {env : Src.Env}
     (h : PieceOK cx items s s' t1 env) (e : ∀ k b, t1 k b = t2 k b) : PieceOK cx items s s' t2 env := by
@@ -35,13 +57,14 @@ theorem pm_congr {cx : Cx} {mc : M (List LItem)} {t1 t2 : Nat → Src.B → Src.
   fun s items s' hs => pieceOK_congr (h s items s' hs) e
 
 /-- a halting control statement is the op of its name -/
-theorem ctl_piece (cx : Cx) (fuel : Nat) (env : Src.Env) (he : PlainEnv env) (nm sn : String) (st : Src.Stmt)
+theorem ctl_simple (cx : Cx) (fuel : Nat) (env : Src.Env) (he : PlainEnv env) (nm sn : String) (st : Src.Stmt)
     (hn : nameOK nm = true) (hf : Beh.endsFlow nm = true) (hnm : nm = sn)
-    (htr : ∀ k b, Src.tr fuel [] env st k b = b.push (.halt ⟨sn, []⟩)) :
-    PM cx (opStmt nm []) (fun k b => Src.tr fuel [] env st k b) env := by
-  intro s items s' h
+    (htr : ∀ k b, Src.tr fuel [] env st k b = b.push (.halt ⟨sn, []⟩)) {s : St} {items : List LItem} {s' : St}
+    (h : opStmt nm [] s = .ok (items, s')) :
+    SimpleOK cx items (fun k b => Src.tr fuel [] env st k b) ∧ s'.loops = s.loops ∧ s'.cases = s.cases := by
   subst hnm
-  refine pieceOK_congr (op_piece cx fuel nm [] hn h env he) (fun k b => ?_)
+  obtain ⟨a, b, c⟩ := op_simple cx fuel nm [] hn h env he
+  refine ⟨simpleOK_congr a (fun k b => ?_), b, c⟩
   rw [htr, Src.tr]
   simp [hf, he.1, substEv_nil, convParams]
 
@@ -50,11 +73,11 @@ theorem ctx_pm (cx : Cx) (fuel : Nat) (env : Src.Env) (he : PlainEnv env) (c : S
     (hc : isCtx c = true) (hn : nameOK n = true) (inner : Src.Stmt)
     (hspec : ∀ k b, Src.afterCtxSpecial env inner k b = some (b.push (.emit ⟨n, convParams ps⟩ k)))
     {mc : M (List LItem)}
-    (hmc : ∀ s items s', mc s = .ok (items, s') → ∃ oc oo, items = [.op ⟨oc, c, [cp]⟩, .op ⟨oo, n, ps⟩] ∧ SameStk s s') :
-    PM cx mc (fun k b => Src.tr fuel [] env (.ctx c [convParam cp] inner) k b) env := by
-  intro s items s' h
+    (hmc : ∀ s items s', mc s = .ok (items, s') → ∃ oc oo, items = [.op ⟨oc, c, [cp]⟩, .op ⟨oo, n, ps⟩] ∧ SameStk s s')
+    {s : St} {items : List LItem} {s' : St} (h : mc s = .ok (items, s')) :
+    SimpleOK cx items (fun k b => Src.tr fuel [] env (.ctx c [convParam cp] inner) k b) ∧ s'.loops = s.loops ∧ s'.cases = s.cases := by
   obtain ⟨oc, oo, rfl, hst⟩ := hmc s items s' h
-  refine ctx_piece cx c cp n ps hc hn oc oo s s' hst.1 hst.2 env _ (fun k b => ?_)
+  refine ⟨ctx_simple cx c cp n ps hc hn oc oo _ (fun k b => ?_), hst.1, hst.2⟩
   rw [Src.tr]
   simp only [hspec, he.1, substEv_nil]
 
@@ -85,49 +108,84 @@ theorem with_shape {c : String} {cp : ESV.Param} {n : String} {ps : List ESV.Par
 theorem patchNone_if (e : Nat) (c : Bool) (l : List LItem) : patchNone e (if c then l else []) = if c then patchNone e l else [] := by
   cases c <;> rfl
 
-section main
-variable (cx : Cx) (fuel : Nat)
-
-mutual
-theorem cStmt_c : ∀ (st : Stmt) (lb : Nat), cgStmt st = true → ∀ (env : Src.Env), PlainEnv env →
-    PM cx (cStmt [] lb st) (fun k b => Src.tr fuel [] env (toSrcStmt st) k b) env
+/-- the statements of F0 never look at the exits -/
+theorem simple_c (cx : Cx) (fuel : Nat) : ∀ (st : Stmt) (lb : Nat), cgSimple st = true → ∀ (env : Src.Env), PlainEnv env →
+    ∀ (s : St) (items : List LItem) (s' : St), cStmt [] lb st s = .ok (items, s') →
+    SimpleOK cx items (fun k b => Src.tr fuel [] env (toSrcStmt st) k b) ∧ s'.loops = s.loops ∧ s'.cases = s.cases
   | .op n ps, lb, hg, env, he => by
-    simp only [cStmt, toSrcStmt]
-    exact fun s items s' h => op_piece cx fuel n ps (by simpa [cgStmt] using hg) h env he
+    intro s items s' h
+    simp only [cStmt, toSrcStmt] at h ⊢
+    exact op_simple cx fuel n ps (by simpa [cgSimple] using hg) h env he
   | .ret, lb, _, env, he => by
-    simp only [cStmt, toSrcStmt]
-    exact ctl_piece cx fuel env he Gen.op_return ESV.Spec.op_return .ret ctl_names.1 ctl_names.2.2.2.1 ctl_names.2.2.2.2.2.2.1
-      (fun k b => by rw [Src.tr]; simp [he.2])
+    intro s items s' h
+    simp only [cStmt, toSrcStmt] at h ⊢
+    exact ctl_simple cx fuel env he Gen.op_return ESV.Spec.op_return .ret ctl_names.1 ctl_names.2.2.2.1 ctl_names.2.2.2.2.2.2.1
+      (fun k b => by rw [Src.tr]; simp [he.2]) h
   | .end_, lb, _, env, he => by
-    simp only [cStmt, toSrcStmt]
-    exact ctl_piece cx fuel env he Gen.op_end ESV.Spec.op_end .end_ ctl_names.2.1 ctl_names.2.2.2.2.1 ctl_names.2.2.2.2.2.2.2.1
-      (fun k b => by rw [Src.tr])
+    intro s items s' h
+    simp only [cStmt, toSrcStmt] at h ⊢
+    exact ctl_simple cx fuel env he Gen.op_end ESV.Spec.op_end .end_ ctl_names.2.1 ctl_names.2.2.2.2.1 ctl_names.2.2.2.2.2.2.2.1
+      (fun k b => by rw [Src.tr]) h
   | .hold, lb, _, env, he => by
-    simp only [cStmt, toSrcStmt]
-    exact ctl_piece cx fuel env he Gen.op_hold ESV.Spec.op_hold .hold ctl_names.2.2.1 ctl_names.2.2.2.2.2.1 ctl_names.2.2.2.2.2.2.2.2
-      (fun k b => by rw [Src.tr])
+    intro s items s' h
+    simp only [cStmt, toSrcStmt] at h ⊢
+    exact ctl_simple cx fuel env he Gen.op_hold ESV.Spec.op_hold .hold ctl_names.2.2.1 ctl_names.2.2.2.2.2.1 ctl_names.2.2.2.2.2.2.2.2
+      (fun k b => by rw [Src.tr]) h
   | .inl c cp n ps, lb, hg, env, he => by
-    simp only [cgStmt, Bool.and_eq_true] at hg
-    simp only [cStmt, toSrcStmt]
+    intro s items s' h
+    simp only [cgSimple, Bool.and_eq_true] at hg
+    simp only [cStmt, toSrcStmt] at h ⊢
     exact ctx_pm cx fuel env he c cp n ps hg.1.1 hg.1.2 _ (fun k b => by simp [Src.afterCtxSpecial, he.1, substEv_nil])
-      (fun s items s' h => inl_shape h)
+      (fun s items s' h => inl_shape h) h
   | .with_ c cp inner, lb, hg, env, he => by
-    simp only [cgStmt, Bool.and_eq_true] at hg
+    intro s items s' h
+    simp only [cgSimple, Bool.and_eq_true] at hg
     cases inner with
     | op n ps =>
       simp only [f0Inner, Bool.and_eq_true] at hg
-      simp only [cStmt, toSrcStmt]
+      simp only [cStmt, toSrcStmt] at h ⊢
       exact ctx_pm cx fuel env he c cp n ps hg.1 hg.2.1 _ (fun k b => by simp [Src.afterCtxSpecial, he.1, substEv_nil])
-        (fun s items s' h => with_shape h)
+        (fun s items s' h => with_shape h) h
     | end_ =>
-      simp only [cStmt, toSrcStmt]
+      simp only [cStmt, toSrcStmt] at h ⊢
       exact ctx_pm cx fuel env he c cp Gen.op_end [] hg.1 ctl_names.2.1 _
-        (fun k b => by simp [Src.afterCtxSpecial, convParams, ctl_names.2.2.2.2.2.2.2.1]) (fun s items s' h => with_shape h)
+        (fun k b => by simp [Src.afterCtxSpecial, convParams, ctl_names.2.2.2.2.2.2.2.1]) (fun s items s' h => with_shape h) h
     | hold =>
-      simp only [cStmt, toSrcStmt]
+      simp only [cStmt, toSrcStmt] at h ⊢
       exact ctx_pm cx fuel env he c cp Gen.op_hold [] hg.1 ctl_names.2.2.1 _
-        (fun k b => by simp [Src.afterCtxSpecial, convParams, ctl_names.2.2.2.2.2.2.2.2]) (fun s items s' h => with_shape h)
+        (fun k b => by simp [Src.afterCtxSpecial, convParams, ctl_names.2.2.2.2.2.2.2.2]) (fun s items s' h => with_shape h) h
     | _ => simp [f0Inner] at hg
+  | .ite .., _, hg, _, _ => by simp [cgSimple] at hg
+  | .label _, _, hg, _, _ => by simp [cgSimple] at hg
+  | .jump _, _, hg, _, _ => by simp [cgSimple] at hg
+  | .call _, _, hg, _, _ => by simp [cgSimple] at hg
+  | .brk, _, hg, _, _ => by simp [cgSimple] at hg
+  | .cont, _, hg, _, _ => by simp [cgSimple] at hg
+  | .brkLoop, _, hg, _, _ => by simp [cgSimple] at hg
+  | .switch .., _, hg, _, _ => by simp [cgSimple] at hg
+  | .forever .., _, hg, _, _ => by simp [cgSimple] at hg
+  | .while_ .., _, hg, _, _ => by simp [cgSimple] at hg
+  | .for_ .., _, hg, _, _ => by simp [cgSimple] at hg
+  | .macroCall .., _, hg, _, _ => by simp [cgSimple] at hg
+
+theorem simple_pm (cx : Cx) (fuel : Nat) (st : Stmt) (lb : Nat) (hg : cgSimple st = true) (env : Src.Env) (he : PlainEnv env) :
+    PM cx (cStmt [] lb st) (fun k b => Src.tr fuel [] env (toSrcStmt st) k b) env := by
+  intro s items s' h
+  obtain ⟨a, b, c⟩ := simple_c cx fuel st lb hg env he s items s' h
+  exact a.piece b c env
+
+section main
+variable (cx : Cx) (fuel : Nat) (lv : Nat)
+
+mutual
+theorem cStmt_c : ∀ (st : Stmt) (lb : Nat), cgStmt lv st = true → ∀ (env : Src.Env), PlainEnv env →
+    PM cx (cStmt [] lb st) (fun k b => Src.tr fuel [] env (toSrcStmt st) k b) env
+  | .op n ps, lb, hg, env, he => simple_pm cx fuel _ lb (by simpa [cgStmt] using hg) env he
+  | .ret, lb, _, env, he => simple_pm cx fuel _ lb rfl env he
+  | .end_, lb, _, env, he => simple_pm cx fuel _ lb rfl env he
+  | .hold, lb, _, env, he => simple_pm cx fuel _ lb rfl env he
+  | .inl c cp n ps, lb, hg, env, he => simple_pm cx fuel _ lb (by simpa [cgStmt] using hg) env he
+  | .with_ c cp inner, lb, hg, env, he => simple_pm cx fuel _ lb (by simpa [cgStmt] using hg) env he
   | .ite neg hdrs body elifs hasElse els, lb, hg, env, he => by
     simp only [cgStmt, Bool.and_eq_true] at hg
     simp only [cStmt, toSrcStmt, toSrcElifs_eq]
@@ -137,15 +195,29 @@ theorem cStmt_c : ∀ (st : Stmt) (lb : Nat), cgStmt st = true → ∀ (env : Sr
   | .jump _, _, hg, _, _ => by simp [cgStmt] at hg
   | .call _, _, hg, _, _ => by simp [cgStmt] at hg
   | .brk, _, hg, _, _ => by simp [cgStmt] at hg
-  | .cont, _, hg, _, _ => by simp [cgStmt] at hg
-  | .brkLoop, _, hg, _, _ => by simp [cgStmt] at hg
+  | .cont, _, _, env, _ => by
+    simp only [cStmt, toSrcStmt]
+    exact cont_pm cx fuel env
+  | .brkLoop, _, _, env, _ => by
+    simp only [cStmt, toSrcStmt]
+    exact brkLoop_pm cx fuel env
   | .switch .., _, hg, _, _ => by simp [cgStmt] at hg
-  | .forever .., _, hg, _, _ => by simp [cgStmt] at hg
-  | .while_ .., _, hg, _, _ => by simp [cgStmt] at hg
-  | .for_ .., _, hg, _, _ => by simp [cgStmt] at hg
+  | .forever body, lb, hg, env, he => by
+    simp only [cgStmt, Bool.and_eq_true] at hg
+    simp only [cStmt, toSrcStmt]
+    exact forever_pm cx fuel env he lb body _ (fun env' he' => cStmts_c body _ hg.2 env' he')
+  | .while_ neg hd body, lb, hg, env, he => by
+    simp only [cgStmt, Bool.and_eq_true] at hg
+    simp only [cStmt, toSrcStmt]
+    exact while_pm cx fuel env he lb neg hd body _ hg.1.2 (fun env' he' => cStmts_c body _ hg.2 env' he')
+  | .for_ init hd inc body, lb, hg, env, he => by
+    simp only [cgStmt, Bool.and_eq_true] at hg
+    simp only [cStmt, toSrcStmt]
+    exact for_pm cx fuel env he lb hd init inc body _ _ _ hg.1.1.1.2 (simple_c cx fuel init _ hg.1.1.2 env he)
+      (simple_c cx fuel inc _ hg.1.2 env he) (fun env' he' => cStmts_c body _ hg.2 env' he')
   | .macroCall .., _, hg, _, _ => by simp [cgStmt] at hg
 
-theorem cStmts_c : ∀ (ss : Stmts) (lb : Nat), cgStmts ss = true → ∀ (env : Src.Env), PlainEnv env →
+theorem cStmts_c : ∀ (ss : Stmts) (lb : Nat), cgStmts lv ss = true → ∀ (env : Src.Env), PlainEnv env →
     PM cx (cStmts [] lb ss) (fun k b => Src.trStmts fuel [] env (toSrcStmts ss) k b) env
   | .nil, lb, _, env, he => by
     intro s items s' h
@@ -165,7 +237,7 @@ theorem cStmts_c : ∀ (ss : Stmts) (lb : Nat), cgStmts ss = true → ∀ (env :
     refine pieceOK_congr (seq_piece cx pA pB) (fun k b => ?_)
     simp only [toSrcStmts]; rw [Src.trStmts]
 
-theorem cElifsA_c : ∀ (es : Elifs) (lb : Nat), cgElifs es = true → ∀ (env : Src.Env), PlainEnv env →
+theorem cElifsA_c : ∀ (es : Elifs) (lb : Nat), cgElifs lv es = true → ∀ (env : Src.Env), PlainEnv env →
     EAC cx fuel env (synOf es) (cElifsA [] lb es)
   | .nil, lb, _, env, he => by
     intro E s0 s as s' _ h
@@ -183,7 +255,7 @@ theorem cElifsA_c : ∀ (es : Elifs) (lb : Nat), cgElifs es = true → ∀ (env 
     obtain ⟨e2, er⟩ := cElifsA_c r _ hg.2 env he E s0 _ _ _ (hst.trans e1) h2
     exact ⟨e1.trans e2, .cons ea er⟩
 
-theorem cElifsB_c : ∀ (es : Elifs) (lb : Nat), cgElifs es = true → ∀ (env : Src.Env), PlainEnv env →
+theorem cElifsB_c : ∀ (es : Elifs) (lb : Nat), cgElifs lv es = true → ∀ (env : Src.Env), PlainEnv env →
     EBC cx fuel env (synOf es) (cElifsB [] lb es)
   | .nil, lb, _, env, he => by
     intro E s0 as hall s late s' _ h
